@@ -74,6 +74,7 @@ func c38KeyBlob() []byte {
 // returns the received blob. Same for sk-ssh-ed25519@openssh.com with a symbolic application
 // string of 0..3 bytes. No panic.
 func Verif_C38_Ed25519Wire() {
+	c40On = true // this author's engine stubs (see zz_verif_stubs.go)
 	sk := verifrt.Choose(0, 1) == 1
 	n := verifrt.Choose(30, 34)
 	t := verifrt.Choose(0, 2)
@@ -159,12 +160,12 @@ func c38Dispatch(maxBody int) {
 // error or a key whose Type() is the declared name; names that are not key formats (unknown
 // names, rsa-sha2-256/512 and their cert names) never yield a key. (Bodies this short are all
 // rejected by the per-type parsers except none: acceptance at full size is Ed25519Wire's job.)
-func Verif_C38_Dispatch() { c38Dispatch(8) }
+func Verif_C38_Dispatch() { c40On = true; c38Dispatch(8) }
 
 // Verif_C38_DispatchT: bodies of 0..14 bytes (40-byte bodies exceed 28 min: the RSA/DSA/ECDSA
 // parsers fork over every symbolic length field). Some ssh-rsa bodies of this size are accepted
 // (parseRSA has no lower bound on the modulus), so the accepting side is exercised too.
-func Verif_C38_DispatchT() { c38Dispatch(14) }
+func Verif_C38_DispatchT() { c40On = true; c38Dispatch(14) }
 
 // c38RefOptions is the reference option splitter, transcribed from sshd (sshkey.c
 // advance_past_options and auth-options.c): a backslash followed by a double quote is skipped as
@@ -271,10 +272,10 @@ func c38AuthorizedKeyOptions(maxN int) {
 // field as sshd delimits it (ends at the first blank outside quotes, quotes balanced, \" does
 // not toggle) and does not start a comment; the options are exactly sshd's comma split (quoted
 // commas stay inside an option); comment "c d" and rest "rest" are returned.
-func Verif_C38_AuthorizedKeyOptions() { c38AuthorizedKeyOptions(3) }
+func Verif_C38_AuthorizedKeyOptions() { c40On = true; c38AuthorizedKeyOptions(3) }
 
 // Verif_C38_AuthorizedKeyOptionsT: S of 0..5 bytes.
-func Verif_C38_AuthorizedKeyOptionsT() { c38AuthorizedKeyOptions(5) }
+func Verif_C38_AuthorizedKeyOptionsT() { c40On = true; c38AuthorizedKeyOptions(5) }
 
 // Verif_C38_TypeField: the declared key type must equal the blob's type: for
 // "<opt> <type> <blob>" and "<type> <blob>" where <type> is "ssh-ed2551" plus one symbolic byte
@@ -282,6 +283,7 @@ func Verif_C38_AuthorizedKeyOptionsT() { c38AuthorizedKeyOptions(5) }
 // blob: a key is returned iff the type field equals the blob's type; the same for
 // ParseKnownHosts ("host <type> <blob>").
 func Verif_C38_TypeField() {
+	c40On = true // this author's engine stubs (see zz_verif_stubs.go)
 	c := verifrt.U8()
 	verifrt.Assume(c > ' ' && c < 0x7f && c != '"' && c != ',') // printable ASCII (bytes.Fields decodes UTF-8 otherwise)
 	typ := "ssh-ed2551" + string([]byte{c})
@@ -321,6 +323,7 @@ func Verif_C38_TypeField() {
 // empty rest, and MarshalAuthorizedKey has the form "ssh-ed25519 <68 base64 chars>\n" (std
 // encoding/base64 runs as real code).
 func Verif_C38_AuthorizedKeyRoundTrip() {
+	c40On = true // this author's engine stubs (see zz_verif_stubs.go)
 	kb := make([]byte, 32)
 	for i := range kb {
 		kb[i] = byte(i*11 + 3)
@@ -350,6 +353,7 @@ const c38Hex = "0123456789abcdef"
 // characters of the unpadded standard base64 of the digest (reference encoder written out
 // here); FingerprintLegacyMD5 is 16 lower-case hex pairs separated by colons.
 func Verif_C38_Fingerprints() {
+	c40On = true // this author's engine stubs (see zz_verif_stubs.go)
 	key := ed25519PublicKey(verifrt.Bytes(32))
 	blob := key.Marshal()
 	d := sha256.Sum256(blob)
